@@ -13,6 +13,7 @@ import (
 	"math"
 	"os"
 	"os/exec"
+	"runtime/debug"
 	"strings"
 	"time"
 
@@ -254,6 +255,7 @@ func runJob(j Job) (out JobOut) {
 
 // childMain: jobs as JSON lines on stdin, one JobOut line per job on stdout.
 func childMain() {
+	debug.SetMaxStack(256 << 20) // a runaway Go recursion dies quickly instead of eating 1 GB first
 	in := bufio.NewReaderSize(os.Stdin, 1<<20)
 	outw := bufio.NewWriter(os.Stdout)
 	dec := json.NewDecoder(in)
@@ -573,8 +575,8 @@ func limitCase(w *lib.Writer, in LimitIn, p *limitProg, need int, measFail strin
 }
 
 // measure gives, for each N, what the program needs: frames (deepest VerifSp seen by mark()) or
-// registry cells.  Registry: under a registry that grows by one cell per resize the final capacity
-// is need or need+1; a second run with a fixed registry of cap-1 cells decides which.
+// registry cells (the smallest fixed registry under which it completes, found by bisection below
+// the capacity a growing registry ended with).
 func measure(p *limitProg, ns []int) (need map[int]int, fail map[int]string) {
 	need, fail = map[int]int{}, map[int]string{}
 	var jobs []Job
@@ -591,23 +593,47 @@ func measure(p *limitProg, ns []int) (need map[int]int, fail map[int]string) {
 		}
 		return
 	}
-	jobs = jobs[:0]
+	// the need is the smallest fixed registry under which the program completes: bisection between
+	// 128 and the capacity the growing registry ended with (independent of the growth policy)
+	lo, hi := make([]int, len(ns)), make([]int, len(ns)) // invariant: fails with lo (or lo = 127), completes with hi
 	for i, n := range ns {
-		jobs = append(jobs, limitJob(p, Cfg{CSS: measureCfg.CSS, Reg: a[i].RegCap - 1, Max: 0, Grow: 1}, n))
-	}
-	b := runJobs(jobs, 20*time.Second)
-	for i, n := range ns {
+		lo[i], hi[i] = 127, a[i].RegCap
 		if a[i].Fail != "" || a[i].Outcome != 0 {
 			fail[n] = fmt.Sprintf("outcome %d cap %d %s %s", a[i].Outcome, a[i].RegCap, a[i].ErrMsg, a[i].Fail)
+			lo[i] = hi[i]
 		}
-		if a[i].RegCap-1 < 128 {
-			continue // the measuring registry (128 cells) never grew: below every limit; the caller uses the calibrated line
+	}
+	for {
+		var idx []int
+		jobs = jobs[:0]
+		for i, n := range ns {
+			if hi[i]-lo[i] > 1 {
+				mid := (lo[i] + hi[i]) / 2
+				if hi[i]-lo[i] > 2 && hi[i] == a[i].RegCap {
+					mid = hi[i] - 2 // the answer is almost always cap-1 or cap: look there first
+				}
+				idx = append(idx, i)
+				jobs = append(jobs, limitJob(p, Cfg{CSS: measureCfg.CSS, Reg: mid, Max: 0, Grow: 1}, n))
+			}
 		}
-		if b[i].Outcome == 0 && b[i].Fail == "" {
-			need[n] = a[i].RegCap - 1
-		} else {
-			need[n] = a[i].RegCap
+		if len(idx) == 0 {
+			break
 		}
+		b := runJobs(jobs, 20*time.Second)
+		for k, i := range idx {
+			mid := jobs[k].Cfg.Reg
+			if b[k].Outcome == 0 && b[k].Fail == "" {
+				hi[i] = mid
+			} else {
+				lo[i] = mid
+			}
+		}
+	}
+	for i, n := range ns {
+		if hi[i] <= 128 {
+			continue // completes in the smallest registry: below every limit; the caller uses the calibrated line
+		}
+		need[n] = hi[i]
 	}
 	return
 }
